@@ -150,7 +150,7 @@ def conv_sym(A, F, D, is_torus, stride, padding, ldil, rdil):
                 if arr._num(term) and term == 0:
                     continue
                 if not valid(cond):
-                    term = z3.If(cond, arr.t_z3(term, True), z3.RealVal(0))
+                    term = arr.t_cond(cond, term)
                 tot = arr.t_bin("add", tot, term)
             return tot
 
